@@ -265,6 +265,19 @@ pub assume_specification<'a, T: Clone>[ <std::borrow::Cow<'a, [T]> as From<Vec<T
         cow_slice_rel(r, s@),
 ;
 
+pub uninterp spec fn cow_is_default<B: ?Sized + ToOwned>(c: std::borrow::Cow<'_, B>) -> bool;
+
+pub assume_specification<'a, B: ?Sized + ToOwned>[ <std::borrow::Cow<'a, B> as Default>::default ]() -> (r: std::borrow::Cow<'a, B>)
+    where <B as ToOwned>::Owned: Default
+    ensures
+        cow_is_default(r),
+;
+
+pub broadcast axiom fn axiom_cow_default_u8(c: std::borrow::Cow<'_, [u8]>)
+    ensures
+        #[trigger] cow_is_default::<[u8]>(c) ==> cow_u8(&c).len() == 0,
+;
+
 pub uninterp spec fn cow_slice_rel<T: Clone>(c: std::borrow::Cow<'_, [T]>, s: Seq<T>) -> bool;
 
 pub broadcast axiom fn axiom_cow_slice_rel_u8(c: std::borrow::Cow<'_, [u8]>, s: Seq<u8>)
@@ -305,6 +318,7 @@ pub broadcast group group_cow {
     axiom_cow_slice_rel_u8,
     axiom_cow_owned_str,
     axiom_cow_owned_bytes,
+    axiom_cow_default_u8,
 }
 
 } // verus!
